@@ -10,6 +10,7 @@ import (
 	"os"
 	"os/exec"
 	"path/filepath"
+	"runtime"
 	"sort"
 	"strconv"
 	"strings"
@@ -95,6 +96,9 @@ type Property struct {
 	// CrashFinding maps a child crash (panic / fatal error text) to a finding;
 	// nil = crashes are violations of this property with key "crash".
 	CrashFinding func(stderr string) *Finding
+	// WatchdogFinding may turn a case-watchdog goroutine dump into a finding
+	// (e.g. an API call blocked forever); nil = inconclusive.
+	WatchdogFinding func(dump string) *Finding
 	// PerCaseTimeout bounds one case (outer watchdog -> inconclusive).
 	PerCaseTimeout time.Duration
 	// SamplesWanted is the number of sample cases kept in evidence.
@@ -219,7 +223,21 @@ func ChildMain(casesFile string, worker, of int, outFile string, skip map[int]bo
 		}
 		fmt.Fprintf(out, "START %d\n", c.Idx)
 		t0 := time.Now()
+		limit := prop.PerCaseTimeout
+		if limit == 0 {
+			limit = 90 * time.Second
+		}
+		wd := time.AfterFunc(limit, func() {
+			// in-child watchdog: dump and die; the parent records the in-flight
+			// case as inconclusive (or lets the property judge the dump)
+			fmt.Fprintf(os.Stderr, "CASE-WATCHDOG case %d exceeded %v\n", c.Idx, limit)
+			buf := make([]byte, 4<<20)
+			n := runtime.Stack(buf, true)
+			os.Stderr.Write(buf[:n])
+			os.Exit(4)
+		})
 		r := prop.Run(c)
+		wd.Stop()
 		r.Idx, r.Kind, r.Seed = c.Idx, c.Kind, c.Seed
 		r.WallMs = int(time.Since(t0) / time.Millisecond)
 		b, _ := json.Marshal(r)
@@ -455,8 +473,14 @@ func RunProperty(p *Property, o RunOpts) int {
 							r.Kind, r.Seed = c.Kind, c.Seed
 						}
 					}
-					if timedOut {
-						r.Inconclusive = "outer watchdog: child exceeded its time limit"
+					if timedOut || strings.Contains(stderr, "CASE-WATCHDOG") {
+						r.Inconclusive = "case watchdog: the case exceeded its time limit"
+						if p.WatchdogFinding != nil {
+							if f := p.WatchdogFinding(stderr); f != nil {
+								r.Inconclusive = ""
+								r.Findings = append(r.Findings, *f)
+							}
+						}
 						r.Witness = strings.Split(stderr, "\n")
 					} else {
 						r.Crash = crashSummary(stderr)
@@ -547,6 +571,10 @@ func aggregate(p *Property, o RunOpts, cases []Case, all []Result, raceLogs []st
 			}
 		}
 		if r.Inconclusive != "" {
+			if len(r.Witness) > 0 && inconclusive < 3 {
+				f := filepath.Join(o.VerifDir, "replays", fmt.Sprintf("inconclusive-%s-%d.txt", p.ID, r.Idx))
+				_ = os.WriteFile(f, []byte(strings.Join(r.Witness, "\n")), 0o644)
+			}
 			inconclusive++
 			if len(inconclusiveText) < 5 {
 				inconclusiveText = append(inconclusiveText, fmt.Sprintf("case %d (%s): %s", r.Idx, r.Kind, r.Inconclusive))
